@@ -559,6 +559,18 @@ func (d *Driver) FamMutate(perType int, dense bool) {
 					d.unmarshalOne(ti, mb, false, fmt.Sprintf("wtflip-%d-%d", pos, wt), false)
 				}
 			}
+			// every length prefix (at every nesting level) replaced by a declared length far beyond the input: 2^20 and 2^26 bytes
+			// (a decoder that allocates from the declared length shows up in the allocation measurement; larger values could take
+			// the whole process down, which the codec check (C03) turns into a verdict through its crash replay)
+			for _, lp := range lenPrefixes(b, 0, 0) {
+				for _, big := range [][]byte{{0x80, 0x80, 0x40}, {0x80, 0x80, 0x80, 0x20}} {
+					if !dense && d.R.Intn(3) > 0 {
+						continue
+					}
+					mb := append(append(append([]byte{}, b[:lp[0]]...), big...), b[lp[0]+lp[1]:]...)
+					d.unmarshalOne(ti, mb, false, fmt.Sprintf("leninflate-%d-%d", lp[0], len(big)), false)
+				}
+			}
 			// length inflation: replace a byte by a huge varint
 			for k := 0; k < 3; k++ {
 				pos := d.R.Intn(len(b))
@@ -605,6 +617,33 @@ func keyOffsets(b []byte, base, depth int) []int {
 				start := base + i + n + (pn - len(pay))
 				if sub := keyOffsets(pay, start, depth+1); sub != nil {
 					out = append(out, sub...)
+				}
+			}
+		}
+		i += n + vn
+	}
+	return out
+}
+
+// lenPrefixes returns (offset, size) of the length prefix of every length-delimited field of b, descending like keyOffsets.
+func lenPrefixes(b []byte, base, depth int) [][2]int {
+	var out [][2]int
+	i := 0
+	for i < len(b) {
+		num, typ, n := protowire.ConsumeTag(b[i:])
+		if n < 0 || num < 1 {
+			return nil
+		}
+		vn := protowire.ConsumeFieldValue(num, typ, b[i+n:])
+		if vn < 0 {
+			return nil
+		}
+		if typ == protowire.BytesType {
+			pay, pn := protowire.ConsumeBytes(b[i+n:])
+			if pn > 0 {
+				out = append(out, [2]int{base + i + n, pn - len(pay)})
+				if len(pay) > 0 && depth < 6 {
+					out = append(out, lenPrefixes(pay, base+i+n+(pn-len(pay)), depth+1)...)
 				}
 			}
 		}
